@@ -65,7 +65,7 @@ OBJ_VALUES = [0, True, "a", [0]]
 def exhaustive(tier, shard, nshards):
     L, S_ = (2, 3) if tier == "quick" else (3, 4)
     doms = (list(G.all_lists([0, 1, True, "a", [0]], L)), list(G.all_strings(["a", "b", "\n"], S_)),
-            list(G.all_objects(["p", "q"], OBJ_VALUES)))
+            list(G.all_objects(["p", "7"], OBJ_VALUES)))
     n = 0
     for dom in doms:
         for b in dom:
